@@ -34,6 +34,7 @@ class ModelLog:
         self.script = []            # (time, op dict, outcome)
         self.gate_calls = []        # (gate id, part, result) predicate evaluations
         self.sched_calls = []       # (now, scheduler id, object name, time arg, state, dispatch serial)
+        self.cb_offsets = []        # (now, device id, offset) one-shot offsets requested from finish callbacks
         self.generated = []         # top-level generated parts
         self.leaves = []            # generated leaf parts, generation order
         self.new = {'receives': 0, 'finishes': 0, 'shutdowns': 0, 'restores': 0, 'hooks': 0, 'script': 0}
@@ -136,6 +137,22 @@ class BlockByState:
         if self.log is not None and not instrument.PROBING:
             self.log.sched_calls.append((self.log.now(), self.sched_id, obj.name, time, state, self.log.serial()))
         obj.block_input = not bool(state)
+
+
+class FinishOffsetCb:
+    """Workload callback: from its own finish-processing callback a processor asks for a one-shot offset of
+    the NEXT cycle (every k-th part)."""
+
+    def __init__(self, log, dev_id, every, offset):
+        self.log, self.dev_id, self.every, self.offset = log, dev_id, every, offset
+        self.n = 0
+
+    def __call__(self, dev, part):
+        self.n += 1
+        if self.n % self.every == 0:
+            dev.offset_next_cycle_time(self.offset)
+            if not instrument.PROBING:
+                self.log.cb_offsets.append((self.log.now(), self.dev_id, self.offset, self.log.serial()))
 
 
 class World:
@@ -389,6 +406,8 @@ def build(spec, bus=None, script=True, system=None, known=None):
                 d.add_receive_part_callback(CtScript(it['ct_script']))
             if it.get('value_add') or it.get('quality_mul') is not None:
                 d.add_finish_processing_callback(ValueCb(it.get('value_add'), it.get('quality_mul')))
+            if it.get('finish_offset'):
+                d.add_finish_processing_callback(FinishOffsetCb(log, i, it['finish_offset'][0], it['finish_offset'][1]))
             d.add_finish_processing_callback(FinishCb(log, i))
             for n in range(3):
                 d.add_shutdown_callback(ShutdownCb(log, i, n))
